@@ -81,8 +81,12 @@ bool Alarm::isEnabled() const {
 
 bool Alarm::enable() {
   if (state_ == State::kInited) {
-    if (onEnable())
-      return activeTimer();
+    if (onEnable()) {
+      if (activeTimer())
+        return true;
+      onDisable();  //! 定时器没能启动，撤销 onEnable() 所做的事（如 WorkdayAlarm 对日历的订阅）
+      return false;
+    }
   }
 
   LogWarn("should initialize first");
@@ -118,7 +122,8 @@ void Alarm::refresh() {
     state_ = State::kInited;
     sp_timer_ev_->disable();
     target_utc_sec_ = 0;    //! 如果不清0，那么每refresh()一次都会往后延一天
-    activeTimer();
+    if (!activeTimer())
+      onDisable();  //! 找不到下一个时间点，定时器已停，撤销 onEnable() 所做的事
   }
 }
 
@@ -222,7 +227,8 @@ void Alarm::onTimeExpired() {
 
   last_fired_utc_sec_ = target_utc_sec_;
   state_ = State::kInited;
-  activeTimer();
+  if (!activeTimer())
+    onDisable();  //! 找不到下一个时间点，定时器已停，撤销 onEnable() 所做的事
 
   RECORD_SCOPE();
   ++cb_level_;
